@@ -43,6 +43,7 @@ def run_one(job):
     """job = (scenario, cfg, out, threads, extra flags) -> (problems, rc, stderr)"""
     sc, cfg, out, threads, extra = job
     w = ws.mkws('sc')
+    scen.set_names(cfg.get('names', 0))
     try:
         scen.materialise(w, sc['tree0'], sc['series'], [('-R' if pt.get('rev') else '') for pt in sc['series']])
         first, names_before = 0, ()
@@ -61,7 +62,7 @@ def run_one(job):
             want = sc['prefixTrees'][oldest - 1] if 'prefixTrees' in sc else None
             got = scen.popsim(snap, out)
             if want is not None:
-                wt = {p: scen.content(f['cells']) for p, f in want.items() if f['ex'] and f['cells']}
+                wt = {scen.conc(p): scen.content(f['cells']) for p, f in want.items() if f['ex'] and f['cells']}
                 gt = {p: v for p, v in got.items() if v}
                 if wt != gt:
                     probs.append(('popsim', 'pop simulation gives %s, tree before patch %d was %s' % (
@@ -70,6 +71,7 @@ def run_one(job):
         probs += [('_rej', (p_, v_[0].hex())) for p_, v_ in snap.items() if p_.endswith('.rej') and not p_.startswith('.pc/')]
         return probs, rc, se[-300:]
     finally:
+        scen.set_names(0)
         ws.rmws(w)
 
 
@@ -115,6 +117,9 @@ def check_scenarios(prop, tier):
                     # prior applied state: patch 1 was pushed by an earlier invocation
                     o = sc['outsAfter1'][(li + seed()) % len(sc['outsAfter1'])]
                     o = {'cfg': dict(o['cfg'], after1=True), 'out': o['out']}
+                if li % 4 == 1:
+                    # concrete file names that are not valid UTF-8 / need quoting in the patch headers
+                    o = {'cfg': dict(o['cfg'], names=1), 'out': o['out']}
                 for threads in (1, 2 + (li % 3)):
                     jobs.append((sc, o['cfg'], o['out'], threads, None)); metas.append((li, threads))
             with Pool(12) as pool:
@@ -136,7 +141,7 @@ def check_scenarios(prop, tier):
                     nbad = 0
                     for j in rj:
                         r = obs.get(j['id'], {'status': 'missing'})
-                        want = j['path'][:-4].encode().hex()
+                        want = j['path'][:-4].encode('utf-8', 'surrogateescape').hex()
                         why = None
                         if r.get('status') != 'ok' or r.get('status2') != 'ok':
                             why = 'is not accepted by the parser (%s / %s)' % (r.get('status'), r.get('status2'))
